@@ -325,6 +325,9 @@ def run(ctx):
     from props import glue
     glue.limit_zero(ctx)
     glue.pathlib_exclude(ctx)
+    from props import clauses
+    clauses.brace_stray(ctx)
+    clauses.translate_clauses(ctx)
     return ctx.finish(RULE)
 
 
